@@ -77,8 +77,18 @@ def _big_stack():
         pass
 
 
+SAMPLE_POOL = {'model': [], 'spec': []}
+
+
 def run_model(wd, which, cases, impl=None, jobs=14):
     """which: 'model' | 'spec' | 'mon' (mon takes the implementation outputs too)."""
+    out = _run_model(wd, which, cases, impl, jobs)
+    if which in SAMPLE_POOL and len(SAMPLE_POOL[which]) < 20000:
+        SAMPLE_POOL[which].extend(zip(cases, out))
+    return out
+
+
+def _run_model(wd, which, cases, impl=None, jobs=14):
     n = len(cases)
     if n == 0:
         return []
@@ -124,6 +134,52 @@ def project(recs, tags):
             k = tags[r[0]]
             out.append(r if k is None else r[:k])
     return out
+
+
+# ---------- in-kernel sample of the extraction ----------
+def kernel_sample(wd, tier, seed):
+    """Re-evaluates a sample of the cases with vm_compute inside Coq (the same Gallina
+    definitions, no extraction, no OCaml) and compares with what the extracted binary printed."""
+    rnd = random.Random(seed)
+    want = 12 if tier != 'thorough' else 150
+    picked = []
+    for which, fn in (('model', 'run_case6'), ('spec', 'spec_case2')):
+        pool = [(c, o) for c, o in SAMPLE_POOL[which] if len(c) < 1500 and len(o) < 4000]
+        rnd.shuffle(pool)
+        picked += [(fn, c, o) for c, o in pool[:want]]
+    if not picked:
+        return dict(cases=0, mismatches=0, ok=True)
+
+    def zl(xs):
+        return '[' + ';'.join('(%d)' % x for x in xs) + ']'
+    items = []
+    for fn, c, o in picked:
+        ints = [int(x) for x in c.split()]
+        recs = records(o)
+        items.append('(%s, %s, %s)' % ('true' if fn == 'run_case6' else 'false', zl(ints), '[' + ';'.join(zl(r) for r in recs) + ']'))
+    src = os.path.join(wd, 'KSample.v')
+    with open(src, 'w') as f:
+        f.write('From GM Require Import Base AsmCodec Monitors.\nFrom Coq Require Import ZArith List Bool.\nImport ListNotations.\nOpen Scope Z_scope.\n')
+        f.write('Definition zl_eqb (a b : list Z) : bool := list_eqb Z.eqb a b.\n')
+        f.write('Definition cases : list (bool * list Z * list (list Z)) := [\n' + ';\n'.join(items) + '].\n')
+        f.write('Definition mism := filter (fun c : bool * list Z * list (list Z) => match c with (m, i, o) => negb (list_eqb zl_eqb (if m then run_case6 i else spec_case2 i) o) end) cases.\n')
+        f.write('Definition nmism := Eval vm_compute in length mism.\nPrint nmism.\n')
+    r = sh(['timeout', '900', 'coqc', '-Q', os.path.join(V, 'coq', 'theories'), 'GM', src], stdout=subprocess.PIPE, stderr=subprocess.STDOUT, text=True,
+           preexec_fn=_big_stack)
+    m = re.search(r'nmism = (\d+)%nat', r.stdout)
+    n = int(m.group(1)) if m else -1
+    return dict(cases=len(picked), mismatches=n, ok=(r.returncode == 0 and n == 0), log=r.stdout[-600:] if n != 0 else '')
+
+
+def coqchk(pid):
+    """Independent re-check of props/<pid>.vo and everything it depends on; lists axioms."""
+    r = sh(['timeout', '3000', 'coqchk', '-silent', '-o', '-Q', os.path.join(V, 'coq', 'theories'), 'GM', 'GM.props.' + pid],
+           stdout=subprocess.PIPE, stderr=subprocess.STDOUT, text=True)
+    out = r.stdout
+    m = re.search(r'\* Axioms:(.*?)\n\s*\n\* Constants', out, re.S)
+    ax = m.group(1).strip() if m else '?'
+    clean = (r.returncode == 0 and ax == '<none>' and out.count('<none>') >= 4)
+    return dict(ok=clean, axioms=ax, summary=out[-700:])
 
 
 # ---------- proof log ----------
